@@ -381,3 +381,27 @@ func obsSig(s scte35.SCTE35) Ev {
 	g["descs"] = ds
 	return g
 }
+
+// growSig lengthens a section to about target bytes (section_length is a 12-bit field, up to 4093):
+// a component splice with many components and/or several descriptors with long UPIDs.
+func growSig(r *rand.Rand, s *absSig, target int) {
+	if s.Cmd.Kind == "insert" && !s.Cmd.Cancel && !s.Cmd.Program && r.Intn(2) == 0 {
+		for len(s.Cmd.Comps) < 120 {
+			s.Cmd.Comps = append(s.Cmd.Comps, absComp{Tag: r.Intn(256), Spec: !s.Cmd.Immediate && r.Intn(4) != 0, Pts: rnd33(r)})
+		}
+	}
+	for len(s.section()) < target-270 {
+		d := rndSeg(r)
+		d.Cancel = false
+		d.UpidType, d.Mid = []int{1, 2, 3, 8, 9, 12, 14, 15}[r.Intn(8)], nil
+		d.Upid = rndBytes(r, 150+r.Intn(50)) // descriptor_length is one byte: keep the body below 256
+		s.Descs = append(s.Descs, d)
+	}
+	for k := 0; len(s.section()) < target && k < 300; k++ {
+		d := &s.Descs[len(s.Descs)-1]
+		if len(d.bytes()) >= 257 {
+			break
+		}
+		d.Upid = append(d.Upid, byte(r.Intn(256)))
+	}
+}
